@@ -245,6 +245,11 @@ func maxHistoryAge(desc *Description) time.Duration {
 }
 
 func getDescriptionFile[T any](name string, allowSubgroups bool, get func(string) (T, error)) (T, string, bool, error) {
+	// the API designates groups by names that end in a slash
+	if !validGroupName(strings.TrimSuffix(name, "/")) {
+		var zero T
+		return zero, "", false, os.ErrNotExist
+	}
 	isSubgroup := false
 	for name != "" {
 		fileName := filepath.Join(
@@ -369,6 +374,9 @@ func UpdateDescription(name, etag string, desc *Description) error {
 		oldetag = makeETag(old.fileSize, old.modTime)
 		filename = old.FileName
 	} else if errors.Is(err, os.ErrNotExist) {
+		if !validGroupName(strings.TrimSuffix(name, "/")) {
+			return err
+		}
 		old = nil
 		filename = filepath.Join(
 			Directory, path.Clean("/"+name)+".json",
@@ -704,6 +712,9 @@ func UpdateUser(group, username string, wildcard bool, etag string, user *UserDe
 	}
 	if user.Password.Type != "" || user.Password.Key != nil {
 		return errors.New("user description is not sanitised")
+	}
+	if !validUsername(username) {
+		return os.ErrNotExist
 	}
 
 	groups.mu.Lock()
